@@ -63,13 +63,14 @@ func (c19Driver) Info() core.Info {
 			"Every lock acquisition and release offers a switch; a task may be descheduled while holding a lock (a blocked task yields instead of parking). Non-trivial: the schedule switched tasks at least once. Distinct schedules are counted by the hash of the pick trace.",
 		Assumptions: []string{
 			"tasks are real goroutines; which one logically proceeds is decided only by the seeded turn variable (//go:norace code + runtime.Gosched under GOMAXPROCS=1), so the scheduler adds no happens-before edge and the race detector sees exactly the library's own synchronisation",
-			"synchronisation inside the standard library (sync.Pool in fmt, reflect caches) is not a function of the schedule: it can hide a race in one run, never invent one; Print and error-producing operations are confined to a separate mix and a race is accepted only if it reproduces in a fresh process",
+			"in a -race build sync.Pool keeps a random 3 of 4 objects and annotates their hand-over as release/acquire, so fmt's buffer pool orders almost any two goroutines that format a string and hides races at random (measured: a race on a process-wide memo was reported in 1 of 12 identical executions); the -race harness is therefore built with an overlay of sync/pool.go in which Put drops every object, which Pool's contract allows (12 of 12 with it). Other synchronisation inside the standard library (reflect caches) can still hide a race in one run, never invent one; a race is accepted only if it reproduces in a fresh process",
+			"process-wide state is cold when the concurrent phase starts: worker processes of this driver are replaced every 20 runs and the sequential expectation is computed after the concurrent phase, not before it",
 			"paths through undeclared rpc input/output are excluded from Find (they create nodes, which is not a read)",
 			"the race detector keeps a bounded access history: a race can be missed in one schedule, never invented",
 			"map iteration order is pinned to sorted by a stateless hook so that the yield sequence is a function of the schedule",
 		},
 		Real: []string{"the whole library built with -race: lexer, parser, AST builder, Process, Entry read API, the four mutexes", "Go race detector"},
-		Stub: []string{"choice of which caller goroutine proceeds (seeded turn-based scheduler at lock points and ticks)", "lock blocking (TryLock + yield instead of parking)", "Go map iteration order (pinned to sorted)"},
+		Stub: []string{"choice of which caller goroutine proceeds (seeded turn-based scheduler at lock points and ticks)", "lock blocking (TryLock + yield instead of parking)", "Go map iteration order (pinned to sorted)", "sync.Pool in the -race build (overlay: every Put drops its object)"},
 	}
 }
 
@@ -77,6 +78,7 @@ func profC19(t *tape.Tape) model.Profile {
 	p := model.Profile{
 		Mods: [2]int{1, 3}, Subs: [2]int{0, 1}, Typedefs: [2]int{0, 2}, Identities: [2]int{0, 2}, Groupings: [2]int{0, 2},
 		TopNodes: [2]int{1, 3}, Augments: [2]int{0, 2}, Deviations: [2]int{0, 1}, DevMods: [2]int{1, 1}, Depth: 2,
+		Posix: t.Sub("posix").Chance(1, 2),
 	}
 	return p
 }
@@ -341,12 +343,6 @@ func (c19Driver) Run(cc core.Case) core.Outcome {
 
 	switch c.Kind {
 	case "k1":
-		// sequential expectation
-		want := make([]string, len(c.Scenarios))
-		for i, s := range c.Scenarios {
-			ms, errs := loadAndProcess(s)
-			want[i] = fullOutcome(ms, errs)
-		}
 		got := make([]string, len(c.Scenarios))
 		tasks := make([]func(), len(c.Scenarios))
 		for i := range c.Scenarios {
@@ -359,6 +355,13 @@ func (c19Driver) Run(cc core.Case) core.Outcome {
 		st := sched.Run(cfg, tasks)
 		recordSched(&o, st)
 		o.Count("probe.k1_runs", 1)
+		// The sequential expectation is computed after the concurrent phase, so
+		// that process-wide state is as cold as the process for the tasks.
+		want := make([]string, len(c.Scenarios))
+		for i, s := range c.Scenarios {
+			ms, errs := loadAndProcess(s)
+			want[i] = fullOutcome(ms, errs)
+		}
 		for i := range got {
 			if got[i] != want[i] {
 				o.Fail("k1-result-differs", "task %d: the result of load+Process+dump in parallel with %d other independent sets differs from the sequential result: %s", i, len(got)-1, firstDiff(want[i], got[i]))
@@ -395,11 +398,6 @@ func (c19Driver) Run(cc core.Case) core.Outcome {
 				run[i] = append(run[i], op)
 			}
 		}
-		for i := range run {
-			for _, op := range run[i] {
-				want[i] = append(want[i], doRead(ms0, op))
-			}
-		}
 		ms, errs := loadAndProcess(s)
 		if len(errs) > 0 {
 			o.Discard = "scenario-not-clean"
@@ -420,6 +418,12 @@ func (c19Driver) Run(cc core.Case) core.Outcome {
 		o.Count("probe.k2_runs", 1)
 		if c.PrintMix {
 			o.Count("probe.k2_print_mix", 1)
+		}
+		// sequential expectation, after the concurrent phase (see k1)
+		for i := range run {
+			for _, op := range run[i] {
+				want[i] = append(want[i], doRead(ms0, op))
+			}
 		}
 		for i := range got {
 			for k := range want[i] {
